@@ -149,6 +149,37 @@ PROPS = {
                             "assumed for the abstract method, proved for AbsoluteCategoricalDissimilarity.d",
                             "model: python list slicing / enumerate / filter / generator-expression sum"],
     ),
+    "C06": dict(
+        functions=[],
+        effects="C06", effects_oracle=CT + "Continuum.compute_gamma#schedules",
+        oracles=[CT + "Continuum.compute_gamma#schedules"],
+        design_ref="DESIGN.md section 4 C06 (R1-R5), 1.6",
+        not_decided=["actual thread interleavings are not explored: a sufficient non-interference condition is proved over a conservative "
+                     "(name-based) call graph", "determinism and thread-safety of numba code, cvxpy, CBC/GLPK, sortedcontainers (trusted)",
+                     "the futures' results are read in submission order: checked syntactically (no as_completed / wait), the list iteration "
+                     "order itself is Python's"],
+        trusted=["S8 ThreadPoolExecutor.submit(f, *args) evaluates args in the calling thread; future.result() returns f(*args)",
+                 "effect analysis: method calls are resolved by name to every method of the package with that name; objects bound from "
+                 "constructor calls / copies / package functions listed in pyvc/effects.py (FRESH_*) are fresh",
+                 "the text of error messages may depend on hash order (comprehensions that only format messages are exempt)"],
+    ),
+    "C14": dict(
+        functions=[CT + "Continuum." + m for m in ("get_best_alignment", "get_best_soft_alignment", "copy", "copy_flush", "merge", "__add__",
+                                                   "annotators", "categories")]
+                  + [DS + "AbstractDissimilarity.valid_alignments", DS + "AbstractDissimilarity._build_arrays_continuum",
+                     AL + "Alignment.gamma_k_disorder", DS + "PositionalSporadicDissimilarity.d", DS + "AbsoluteCategoricalDissimilarity.d"],
+        effects="C14", effects_oracle=CT + "Continuum.compute_gamma#purity",
+        oracles=[CT + "Continuum.compute_gamma#purity"],
+        bounded=[dict(oracle=CT + "Continuum.compute_gamma#purity",
+                      what="entry points without a heap contract yet (fast alignment, first window, compute_gamma, gamma_cat/k, samplers, "
+                           "corpus shuffling tool, __getitem__, to_csv): inputs snapshotted before / after, derived continua mutated afterwards")],
+        design_ref="DESIGN.md section 4 C14, 1.5 (frames), 1.6",
+        not_decided=["third-party calls write nothing reachable from our objects (trusted)",
+                     "Alignment.disorder memoises its value in the alignment it belongs to (not an input continuum / dissimilarity)"],
+        trusted=["heap frames: every object that existed on entry and is outside `modifies` is compared field by field at every exit of the "
+                 "functions under contract (ghost enumerations of the sorted containers are determined by membership and not compared)",
+                 "effect analysis as in C06", "model: deepcopy / sortedcontainers"],
+    ),
     "C07": dict(
         functions=[NU + "iter_tuples", NU + "extend_right_alignments", NU + "extend_right_disorders",
                    DS + "AbstractDissimilarity._get_all_valid_alignments"],
